@@ -706,6 +706,8 @@ class Emitter:
         ks = self.kids(n)
         body, handlers = ks[0], ks[1:]
         handler_ret = None
+        if self.spec.get('catch_dispatch'):
+            return self.try_dispatch(body, handlers)
         for hd in handlers:
             hb = [c for c in self.kids(hd) if c.get('kind') == 'CompoundStmt']
             sts = self.kids(hb[0]) if hb else []
@@ -740,6 +742,56 @@ class Emitter:
             after = '__after_try_%d' % self.try_no
             return inner + ['goto %s;' % after, '%s: __exc = 0; return %s; /* handlers of this try block log and return this value */' % (lab, handler_ret), '%s: ;' % after]
         return inner + ['%s: __exc = 0; /* handlers of this try block only log: the exception is swallowed */' % lab]
+
+    def try_dispatch(self, body, handlers):
+        """general lowering (spec option catch_dispatch): the protected block runs with its own landing pad; there the pending exception kind is
+        tested against each handler's class in order (EXC_ISA_<class>(kind) macros: the class hierarchy of the exception kinds is given by the
+        spec and listed as an assumption); the matching handler's body is emitted through the ordinary rules with the exception object reduced to
+        its kind; `throw;` re-raises the caught kind to the enclosing target; no match propagates."""
+        self.try_no = getattr(self, 'try_no', 0) + 1
+        no = self.try_no
+        lab, after, caught = '__catch_%d' % no, '__after_try_%d' % no, '__caught_%d' % no
+        if not hasattr(self, 'exc_stack') or self.exc_stack is None:
+            self.exc_stack = []
+        self.exc_stack.append(lab)
+        try:
+            inner = self.stmt(body)
+        finally:
+            self.exc_stack.pop()
+        out = inner + ['goto %s;' % after, '%s: ;' % lab, '{', '  int %s = __exc; __exc = 0;' % caught]
+        first = True
+        for hd in handlers:
+            hk = self.kids(hd)
+            var = [c for c in hk if c.get('kind') == 'VarDecl']
+            blk = [c for c in hk if c.get('kind') == 'CompoundStmt']
+            if not blk:
+                raise Unsupported('catch handler without a block')
+            if var:
+                cls = self.class_of(var[0]['type'])
+                cond = 'EXC_ISA_%s(%s)' % (ident(re.sub(r'<.*>', '', cls)), caught)
+            else:
+                cond = '1'       # catch (...)
+            out.append('  %sif (%s)' % ('' if first else 'else ', cond))
+            first = False
+            hl = ['{']
+            if var and var[0].get('name'):
+                nm = var[0]['name']
+                self.locals[nm] = var[0]['type']
+                hl.append('  int %s = %s; (void)%s; /* the exception object is reduced to its kind */' % (nm, caught, nm))
+                self.exc_vars = getattr(self, 'exc_vars', set()) | {nm}
+            saved = getattr(self, 'rethrow_kind', None)
+            self.rethrow_kind = caught
+            try:
+                for st in self.kids(blk[0]):
+                    hl += ['  ' + l for l in self.stmt(st)]
+            finally:
+                self.rethrow_kind = saved
+            hl.append('}')
+            out += ['  ' + l for l in hl]
+        out.append('  %s{ __exc = %s; goto %s; } /* not caught here: propagate */' % ('' if first else 'else ', caught, self.exc_target()))
+        out += ['}', '%s: ;' % after]
+        self.rules['try_with_handler_dispatch'] += 1
+        return out
 
     def rangefor(self, n):
         h = self.f.get('rangefor_handler')
@@ -896,7 +948,13 @@ class Emitter:
         return v + ('f' if t == 'float' else '')
 
     def e_StringLiteral(self, n):
-        return n['value']
+        # cbmc's C front end reads octal escapes greedily ("\00134=" becomes the two bytes '\\' '='): end the literal piece after every
+        # numeric escape (adjacent literals are concatenated by the language)
+        v = n['value']
+        v2 = re.sub(r'(\\(?:[0-7]{1,3}|x[0-9a-fA-F]+))(?=[0-9a-fA-F])', r'\1" "', v)
+        if v2 != v:
+            self.rules['string_literal_escape_split'] += 1
+        return v2
 
     def e_ImplicitValueInitExpr(self, n):
         return '0'
@@ -1443,6 +1501,9 @@ class Emitter:
         # generic lowering: exception object reduced to its kind; `throw X(args)` -> { __exc = EXC_X; goto <handler or __unwind>; }
         ks = self.kids(n)
         if not ks:
+            if getattr(self, 'rethrow_kind', None):
+                self.rules['rethrow_to_goto'] += 1
+                return '{ __exc = %s; goto %s; }' % (self.rethrow_kind, self.exc_target())
             raise Unsupported('rethrow')
         cls = self.class_of(self.unwrap(ks[0])['type'])
         kind = 'EXC_' + ident(re.sub(r'<.*>', '', cls))
